@@ -183,20 +183,28 @@ func c02Normalise(c *core.Ctx, r *c13roles) {
 	}
 	// evaluators: methods of the context called from ParseNode returning (interface{}, error) taking a *Decl
 	evals := map[*ssa.Function]bool{}
+	// (the evaluator may be called directly, or through a func value chosen by a selector helper: parse := p.parserFor(kind))
 	for _, ci := range core.Calls(r.parseNode) {
-		cf := ci.Common().StaticCallee()
-		if cf == nil || core.FuncPkg(cf) != r.tp || cf == r.parseNode {
-			continue
-		}
-		rs := cf.Signature.Results()
-		takesDecl := false
-		for _, p := range cf.Params {
-			if core.NamedOf(p.Type()) == r.declT {
-				takesDecl = true
+		cfs, complete := g3Callees(ci, nil)
+		if !complete && !ci.Common().IsInvoke() {
+			if sig, ok := ci.Common().Value.Type().Underlying().(*types.Signature); ok && sig.Results().Len() == 2 && isEmptyIface(sig.Results().At(0).Type()) && isErrorT(sig.Results().At(1).Type()) {
+				c.Unknown("R02c", core.FuncKey(r.parseNode)+" evaluator call", core.InstrPos(ci), "ParseNode calls an evaluator through a func value whose possible targets cannot be enumerated")
 			}
 		}
-		if takesDecl && rs.Len() == 2 && isEmptyIface(rs.At(0).Type()) && isErrorT(rs.At(1).Type()) {
-			evals[cf] = true
+		for _, cf := range cfs {
+			if cf == nil || core.FuncPkg(cf) != r.tp || cf == r.parseNode {
+				continue
+			}
+			rs := cf.Signature.Results()
+			takesDecl := false
+			for _, p := range cf.Params {
+				if core.NamedOf(p.Type()) == r.declT {
+					takesDecl = true
+				}
+			}
+			if takesDecl && rs.Len() == 2 && isEmptyIface(rs.At(0).Type()) && isErrorT(rs.At(1).Type()) {
+				evals[cf] = true
+			}
 		}
 	}
 	// a callee that merely hands back the results of further evaluators (return p.parseX(...)) is a dispatcher, not an
@@ -298,11 +306,26 @@ func c02KindDispatch(c *core.Ctx, r *c13roles) {
 		return out
 	}
 	inDispatch := map[string]bool{}
-	for _, f := range evalPath(r) {
+	for _, f := range g3EvalPath(r) {
 		// the dispatch may live in ParseNode or in a helper it delegates to
 		if f == r.parseNode || delegatedFrom(r.parseNode, f, 0) {
 			for k := range comparedIn(f) {
 				inDispatch[k] = true
+			}
+			// ... or in a selector helper: a function whose result is the func value that the dispatcher calls and whose
+			// results the dispatcher hands back (parse := p.parserFor(decl.kind); return parse(n, decl))
+			for _, ci := range core.Calls(f) {
+				call, ok := ci.(*ssa.Call)
+				if !ok || call.Call.StaticCallee() != nil || call.Call.IsInvoke() || !g3ResultsHandedBack(call) {
+					continue
+				}
+				selectors := map[*ssa.Function]bool{}
+				g3Callees(call, selectors)
+				for h := range selectors {
+					for k := range comparedIn(h) {
+						inDispatch[k] = true
+					}
+				}
 			}
 		}
 	}
@@ -553,6 +576,23 @@ func delegates(f *ssa.Function, r *c13roles, norm *ssa.Function) []*ssa.Function
 	return out
 }
 
+// g3ResultsHandedBack: a result of the call is returned by (or stored into the result cache of) the calling function.
+func g3ResultsHandedBack(call *ssa.Call) bool {
+	for _, u := range core.Referrers(call) {
+		if ex, ok := u.(*ssa.Extract); ok {
+			for _, u2 := range core.Referrers(ex) {
+				if _, ok := u2.(*ssa.Return); ok {
+					return true
+				}
+				if _, ok := u2.(*ssa.MapUpdate); ok {
+					return true
+				}
+			}
+		}
+	}
+	return false
+}
+
 // delegatedFrom: g is reached from f through a chain of dispatchers (f's results are g's results).
 func delegatedFrom(f, g *ssa.Function, d int) bool {
 	if d > 3 || f.Blocks == nil {
@@ -568,20 +608,7 @@ func delegatedFrom(f, g *ssa.Function, d int) bool {
 		if !ok {
 			continue
 		}
-		returned := false
-		for _, u := range core.Referrers(call) {
-			if ex, ok := u.(*ssa.Extract); ok {
-				for _, u2 := range core.Referrers(ex) {
-					if _, ok := u2.(*ssa.Return); ok {
-						returned = true
-					}
-					if _, ok := u2.(*ssa.MapUpdate); ok {
-						returned = true
-					}
-				}
-			}
-		}
-		if !returned {
+		if !g3ResultsHandedBack(call) {
 			continue
 		}
 		if cf == g || delegatedFrom(cf, g, d+1) {
@@ -599,7 +626,7 @@ func delegatedFrom(f, g *ssa.Function, d int) bool {
 // parameter type.
 func c02Positional(c *core.Ctx, r *c13roles) {
 	n := 0
-	for _, f := range evalPath(r) {
+	for _, f := range g3EvalPath(r) {
 		// does f range over CustomFuncDecl.Args?
 		walksArgs := false
 		for _, b := range f.Blocks {
@@ -612,38 +639,47 @@ func c02Positional(c *core.Ctx, r *c13roles) {
 		if !walksArgs {
 			continue
 		}
-		for _, b := range f.Blocks {
-			for _, in := range b.Instrs {
-				phi, ok := in.(*ssa.Phi)
-				if !ok || !isInt(phi.Type()) {
+		// the cursor: an integer handed to a repository call inside a loop that is (loop-invariant offset) + (a loop-carried
+		// counter of that loop): a running `idx++` variable, the range index plus a start offset, ...
+		reported := map[*ssa.Phi]bool{}
+		for _, ci := range core.Calls(f) {
+			cf := ci.Common().StaticCallee()
+			if cf == nil || !core.InRepo(core.FuncPkg(cf)) {
+				continue
+			}
+			for _, a := range ci.Common().Args {
+				if !isInt(a.Type()) {
 					continue
 				}
-				// used as an argument of a repository call?
-				usedAsCursor := false
-				for _, u := range core.Referrers(phi) {
-					if ci, ok := u.(ssa.CallInstruction); ok {
-						if cf := ci.Common().StaticCallee(); cf != nil && core.InRepo(core.FuncPkg(cf)) {
-							usedAsCursor = true
-						}
-					}
+				phi, linear := g3CounterOf(a)
+				if phi == nil {
+					continue // no loop-carried part: not a cursor
 				}
-				if !usedAsCursor {
-					continue
-				}
-				n++
 				key := core.FuncKey(f) + " parameter cursor"
-				okAll := true
+				if !linear {
+					n++
+					c.Bad("R02h", key, core.InstrPos(ci), "the parameter index handed to "+core.FuncKey(cf)+" is not a loop counter plus a loop-invariant offset: arguments are no longer paired positionally with the function's parameters")
+					continue
+				}
+				if reported[phi] {
+					continue
+				}
+				reported[phi] = true
+				n++
+				b := phi.Block()
+				okAll, back := true, 0
 				for i, e := range phi.Edges {
 					pred := b.Preds[i]
 					if !b.Dominates(pred) {
 						continue // entry edge
 					}
+					back++
 					bo, isBo := e.(*ssa.BinOp)
-					if !(isBo && bo.Op == token.ADD && bo.X == ssa.Value(phi) && isConstInt(bo.Y, 1)) {
+					if !(isBo && bo.Op == token.ADD && ((bo.X == ssa.Value(phi) && isConstInt(bo.Y, 1)) || (bo.Y == ssa.Value(phi) && isConstInt(bo.X, 1)))) {
 						okAll = false
 					}
 				}
-				c.Check(okAll, "R02h", key, phi.Pos(), "the cursor advances by one on every path round the argument loop",
+				c.Check(okAll && back > 0, "R02h", key, phi.Pos(), "the cursor advances by one on every path round the argument loop",
 					"an iteration of the argument loop can reach the next one without advancing the parameter cursor: arguments are no longer paired positionally with the function's parameters")
 			}
 		}
@@ -651,6 +687,97 @@ func c02Positional(c *core.Ctx, r *c13roles) {
 	if n == 0 {
 		c.Unresolved("R02h", "custom_func parameter cursor", "no loop-carried cursor found in the function that walks CustomFuncDecl.Args")
 	}
+}
+
+// g3CounterOf decomposes an integer value into (loop-header phi) + (terms invariant in that phi's loop). Returns the
+// phi (nil if the value has no loop-carried part) and whether the decomposition is exact (coefficient one, every other
+// term invariant).
+func g3CounterOf(v ssa.Value) (*ssa.Phi, bool) {
+	var phi *ssa.Phi
+	linear := true
+	var terms []ssa.Value
+	var walk func(v ssa.Value, positive bool, d int)
+	walk = func(v ssa.Value, positive bool, d int) {
+		switch x := v.(type) {
+		case *ssa.Const, *ssa.Parameter, *ssa.FreeVar:
+			return
+		case *ssa.Phi:
+			if g3IsLoopHeaderPhi(x) {
+				if phi != nil || !positive {
+					linear = false // two counters, or a negated one
+				}
+				if phi == nil {
+					phi = x
+				}
+				return
+			}
+		case *ssa.BinOp:
+			if d < 6 && (x.Op == token.ADD || x.Op == token.SUB) {
+				walk(x.X, positive, d+1)
+				walk(x.Y, positive == (x.Op == token.ADD), d+1)
+				return
+			}
+		}
+		terms = append(terms, v)
+	}
+	walk(v, true, 0)
+	if phi == nil {
+		// a non-affine expression may still hide a counter: look one level into its operands
+		for _, t := range terms {
+			if in, ok := t.(ssa.Instruction); ok {
+				for _, op := range in.Operands(nil) {
+					if op == nil || *op == nil {
+						continue
+					}
+					if p, _ := g3CounterOf0(*op); p != nil {
+						return p, false
+					}
+				}
+			}
+		}
+		return nil, true
+	}
+	// every other term must be computed outside the counter's loop
+	h := phi.Block()
+	for _, t := range terms {
+		in, ok := t.(ssa.Instruction)
+		if !ok {
+			continue
+		}
+		if tb := in.Block(); tb == h || !tb.Dominates(h) {
+			linear = false
+		}
+	}
+	return phi, linear
+}
+
+// g3CounterOf0: the affine decomposition without the look into non-affine operands (bounds the recursion).
+func g3CounterOf0(v ssa.Value) (*ssa.Phi, bool) {
+	switch x := v.(type) {
+	case *ssa.Phi:
+		if g3IsLoopHeaderPhi(x) {
+			return x, true
+		}
+	case *ssa.BinOp:
+		if p, _ := g3CounterOf0(x.X); p != nil {
+			return p, true
+		}
+		return g3CounterOf0(x.Y)
+	case *ssa.Convert:
+		return g3CounterOf0(x.X)
+	}
+	return nil, true
+}
+
+// g3IsLoopHeaderPhi: the phi merges a value carried round a loop (one of its edges comes from a block it dominates).
+func g3IsLoopHeaderPhi(phi *ssa.Phi) bool {
+	b := phi.Block()
+	for _, p := range b.Preds {
+		if b.Dominates(p) {
+			return true
+		}
+	}
+	return false
 }
 
 func isConstInt(v ssa.Value, k int64) bool {
@@ -684,7 +811,7 @@ func c02ChildrenThroughNormaliser(c *core.Ctx, r *c13roles) {
 		return
 	}
 	n := 0
-	for _, f := range evalPath(r) {
+	for _, f := range g3EvalPath(r) {
 		if f == r.parseNode || f.Parent() != nil {
 			continue
 		}
